@@ -30,6 +30,7 @@ loader.exec_module(chk)
 
 # C18 only: performance rewrites of parser functions introduce panic-capable sites (string slices by byte index, new index
 # helpers, loops driven by helper results) that neither the bounds prover nor a reviewed entry discharges (DESIGN 7)
+SAME_FINDING_ELSEWHERE = "C20/R5/own-production(SFunction via check_arithmetic_infix) also in "
 KNOWN_LIMIT = {("ref-R43", "C18"), ("ref-R45", "C18"), ("ref-R46", "C18"), ("ref-R55", "C18"), ("ref-R56", "C18"), ("ref-R83", "C18"),
                # the three list walks rewritten as one iterator struct (`ListWalk`) and the constructor driven by `terms.len()`
                ("ref-R81", "C16"), ("ref-R81", "C17")}
@@ -127,6 +128,14 @@ def main():
         for name, prop, keys, n in ex.map(run_one, jobs, chunksize=2):
             kind, patch, exp = ts[name]
             if kind == "clean" and keys:
+                # the open known finding of C20 (known_findings.json) is keyed by the scanner it names; a rewrite that
+                # renames that scanner keeps the defect, so the same report under the new name is not a false alarm
+                same = [k for k in keys if k.startswith(SAME_FINDING_ELSEWHERE)]
+                if same:
+                    print("same-finding %s %s: %s" % (name, prop, "; ".join(k[len(prop) + 1:] for k in same)[:200]))
+                    keys = [k for k in keys if k not in same]
+                    if not keys:
+                        continue
                 if (name, prop) in KNOWN_LIMIT:
                     print("known-limit %s %s (DESIGN 7: reviewed / unproved parser sites after a rewrite): %s" % (
                         name, prop, "; ".join(k[len(prop) + 1:] for k in keys)[:200]))
